@@ -237,14 +237,14 @@ func Run(opts *Options) (int, error) {
 			reader := NewReader(
 				func(runes []byte) bool {
 					item := Item{}
+					mutex.Lock()
 					if chunkList.trans(&item, runes) {
-						mutex.Lock()
 						if result, _, _ := pattern.MatchItem(&item, false, slab); result != nil {
 							opts.Printer(item.AsString(opts.Ansi))
 							found = true
 						}
-						mutex.Unlock()
 					}
+					mutex.Unlock()
 					return false
 				}, eventBox, executor, opts.ReadZero, false)
 			reader.ReadSource(opts.Input, opts.WalkerRoot, opts.WalkerOpts, opts.WalkerSkip, initialReload, initialEnv, nil)
